@@ -1301,7 +1301,7 @@ def cstep_coq(st):
     raise ValueError(st)
 
 
-def crash_closed_check(res, prop, n):
+def crash_closed_check(res, prop, n, allow_early=True):
     """the closed composition WITH WORKER CRASHES (coq/Model/PoolCrash.v; invariant, liveness and
     timing are proved of it in Proofs/PoolCrashProofs.v): random schedules of client, task queue,
     pipe, live workers, result pipe, kills of executing workers, supervision passes and clock
@@ -1320,7 +1320,7 @@ def crash_closed_check(res, prop, n):
                    lost=rng.choice([None, 1, 3, 3]))
         nj = rng.choice([1, 2, 3, 5, 8])
         spec = dict(seed=rng.randrange(1 << 30), n=nj, kills=rng.choice([0, 1, 1, 2, 3, 5]),
-                    kill_prob=rng.choice([0.2, 0.5, 0.9]), early=rng.random() < 0.3,
+                    kill_prob=rng.choice([0.2, 0.5, 0.9]), early=allow_early and rng.random() < 0.3,
                     idle_prob=rng.choice([0.0, 0.03, 0.08]), stop_after=rng.choice([60, 150, 400, 400]))
         if rng.random() < 0.4:
             spec['bad'] = sorted(rng.sample(range(nj), rng.randrange(0, nj + 1)))
